@@ -271,56 +271,53 @@ func genPool() (string, error) {
 	if rsFn == nil || dsFn == nil {
 		return "", fmt.Errorf("BaseStream.ResetStream/DestroyStream not found")
 	}
-	stEnv := func() *Env {
-		return boolEnv(map[string]string{"s.state": "state", "streamStateReset": "streamStateReset",
-			"streamStateDestroying": "streamStateDestroying", "streamStateDestroyed": "streamStateDestroyed"})
-	}
-	// ResetStream: `if <cond> { return }` as first statement ⇒ proceeds = !cond; no such guard ⇒ always proceeds
-	resetGuard := "true"
-	if len(rsFn.Body.List) > 0 {
-		if i, ok := rsFn.Body.List[0].(*ast.IfStmt); ok && len(i.Body.List) == 1 {
-			if _, isRet := i.Body.List[0].(*ast.ReturnStmt); isRet {
-				c, err := stEnv().expr(deatom(i.Cond))
-				if err != nil {
-					return "", fmt.Errorf("ResetStream guard: %v", err)
+	// the guards are read off the step programs of the two methods (gen_c09b.go): sequentially, a load guard and a
+	// CAS guard both mean "proceeds iff state = <value>"; the difference matters to concurrent callers only and is
+	// the subject of Gen/StreamOnce and theorem destroy_once_concurrent.
+	guardOf := func(fd *ast.FuncDecl) (string, []c09bStep, error) {
+		p, err := c09bProgram(fd)
+		if err != nil {
+			return "", nil, err
+		}
+		names := map[int64]string{}
+		for _, n := range []string{"streamStateReset", "streamStateDestroying", "streamStateDestroyed"} {
+			v, err := intConst("pkg/stream", n)
+			if err != nil {
+				return "", nil, err
+			}
+			names[v] = n
+		}
+		for _, st := range p {
+			if st.kind == "loadGuard" || st.kind == "casGuard" {
+				n, ok := names[st.a]
+				if !ok {
+					return "", nil, fmt.Errorf("%s: guard value %d is not a stream state", fd.Name.Name, st.a)
 				}
-				resetGuard = "!" + c
+				return "(decide (state = " + n + "))", p, nil
+			}
+			if st.kind != "yield" {
+				break
 			}
 		}
+		return "true", p, nil
+	}
+	resetGuard, _, err := guardOf(rsFn)
+	if err != nil {
+		return "", err
 	}
 	fmt.Fprintf(&sb, "/-- BaseStream.ResetStream goes on (notifies the listeners, then destroys) -/\ndef resetProceeds (state : Nat) : Bool :=\n  %s\n", resetGuard)
-	// DestroyStream: `if !atomic.CompareAndSwapUint32(&s.state, OLD, NEW) { return }` ⇒ proceeds = (state = OLD)
-	destroyGuard := "true"
-	if len(dsFn.Body.List) > 0 {
-		if i, ok := dsFn.Body.List[0].(*ast.IfStmt); ok && len(i.Body.List) == 1 {
-			if _, isRet := i.Body.List[0].(*ast.ReturnStmt); isRet {
-				u, ok := i.Cond.(*ast.UnaryExpr)
-				if !ok || u.Op != token.NOT {
-					return "", fmt.Errorf("DestroyStream guard: not a negated CAS")
-				}
-				call, ok := u.X.(*ast.CallExpr)
-				if !ok || types.ExprString(call.Fun) != "atomic.CompareAndSwapUint32" || len(call.Args) != 3 || types.ExprString(call.Args[0]) != "&s.state" {
-					return "", fmt.Errorf("DestroyStream guard: not a CAS on s.state")
-				}
-				old, err := stEnv().expr(call.Args[1])
-				if err != nil {
-					return "", fmt.Errorf("DestroyStream guard: %v", err)
-				}
-				destroyGuard = "(decide (state = " + old + "))"
-			}
+	destroyGuard, dprog, err := guardOf(dsFn)
+	if err != nil {
+		return "", err
+	}
+	fmt.Fprintf(&sb, "/-- BaseStream.DestroyStream passes its guard (tells the listeners) -/\ndef destroyProceeds (state : Nat) : Bool :=\n  %s\n", destroyGuard)
+	// the state a destroyed stream is left in: the last store of DestroyStream
+	finalState := ""
+	for _, st := range dprog {
+		if st.kind == "store" {
+			finalState = fmt.Sprint(st.a)
 		}
 	}
-	fmt.Fprintf(&sb, "/-- BaseStream.DestroyStream wins the CAS (tells the listeners) -/\ndef destroyProceeds (state : Nat) : Bool :=\n  %s\n", destroyGuard)
-	// the state a destroyed stream is left in: the last atomic.StoreUint32(&s.state, X) of DestroyStream
-	finalState := ""
-	ast.Inspect(dsFn.Body, func(n ast.Node) bool {
-		if c, ok := n.(*ast.CallExpr); ok && types.ExprString(c.Fun) == "atomic.StoreUint32" && len(c.Args) == 2 && types.ExprString(c.Args[0]) == "&s.state" {
-			if v, err := stEnv().expr(c.Args[1]); err == nil {
-				finalState = v
-			}
-		}
-		return true
-	})
 	if finalState == "" {
 		return "", fmt.Errorf("DestroyStream: final state store not found")
 	}
@@ -437,15 +434,22 @@ func genPool() (string, error) {
 	}
 	sb.WriteString(s)
 	// connect failure inside the then-branch, overflow in the else-branch
-	failIf := findIf(inner.Body, "ac == nil")
-	if failIf == nil {
-		return "", fmt.Errorf("getAvailableClient: connect-failure branch not found")
+	// A failed dial gives the slot back either right here (the branch testing the result of newActiveClient) or in the
+	// connection-event handler (branch of the dial's event: ConnectFailed for a refused / failed connect,
+	// ConnectTimeout for a dial that timed out). Both places are read; the model adds them up per dial outcome.
+	var inFn int64
+	if failIf := findIf(inner.Body, "ac == nil"); failIf != nil {
+		d, n = sumDeltas(failIf.Body.List, h1tot)
+		if n > 1 {
+			return "", fmt.Errorf("getAvailableClient: connect-failure decrement not recognised")
+		}
+		inFn = d
 	}
-	d, n = sumDeltas(failIf.Body.List, h1tot)
-	if n > 1 {
-		return "", fmt.Errorf("getAvailableClient: connect-failure decrement not recognised")
+	s, err = c09bDialFailDef("h1DialFailDelta", "HTTP/1 pool", inFn, oce, h1tot)
+	if err != nil {
+		return "", err
 	}
-	fmt.Fprintf(&sb, "def h1ConnFailDelta : Int := %d\n", d)
+	sb.WriteString(s)
 	eb, ok := inner.Else.(*ast.BlockStmt)
 	if !ok {
 		return "", fmt.Errorf("getAvailableClient: overflow branch not found")
@@ -590,6 +594,25 @@ func genPool() (string, error) {
 		return "", fmt.Errorf("GetActiveClient: increment on success not recognised")
 	}
 	fmt.Fprintf(&sb, "def ppNewDelta : Int := %d\n", d)
+	var ppInFn int64
+	if eb, ok := okIf.Else.(*ast.BlockStmt); ok {
+		d, n = sumDeltas(eb.List, pptot)
+		if n > 1 {
+			return "", fmt.Errorf("GetActiveClient: counter movement on a failed dial not recognised")
+		}
+		ppInFn = d
+	} else if okIf.Else != nil {
+		return "", fmt.Errorf("GetActiveClient: unexpected else-if after the success test")
+	}
+	poe := findFunc(pf, "activeClientPingPong", "OnEvent")
+	if poe == nil {
+		return "", fmt.Errorf("activeClientPingPong.OnEvent not found")
+	}
+	s, err = c09bDialFailDef("ppDialFailDelta", "ping-pong pool", ppInFn, poe, pptot)
+	if err != nil {
+		return "", err
+	}
+	sb.WriteString(s)
 	preuse, ok := ptop.Else.(*ast.BlockStmt)
 	if !ok {
 		return "", fmt.Errorf("GetActiveClient: reuse branch not found")
